@@ -157,7 +157,8 @@ impl LocalHeader {
     /// A header parsed from untrusted bytes may carry a total size smaller
     /// than the header itself; that yields 0 instead of underflowing.
     pub const fn blte_size(&self) -> u32 {
-        self.size_with_header.saturating_sub(LOCAL_HEADER_SIZE as u32)
+        self.size_with_header
+            .saturating_sub(LOCAL_HEADER_SIZE as u32)
     }
 }
 
